@@ -218,7 +218,13 @@ int main(void)
 				printf(" asp=%s src=%d", evlog + 5, dec->aspect_source);
 				evlen = 0; evlog[0] = 0;
 				ev_pid("pid", &dec->vps_pid);
-				printf(" pid=%s\n", evlog + 5);
+				printf(" pid=%s", evlog + 5);
+#ifdef NET_PER_CARRIER	/* set by checks/C13.py when src/vbi.h declares cni_cycle[] (F11 repaired) */
+				printf(" deb=%d:%d:%d:%d:%d:%d", dec->cni_cycle[VBI_CNI_TYPE_VPS], dec->cni_cycle[VBI_CNI_TYPE_8301],
+				       dec->cni_cycle[VBI_CNI_TYPE_8302], dec->cni_announced[VBI_CNI_TYPE_VPS],
+				       dec->cni_announced[VBI_CNI_TYPE_8301], dec->cni_announced[VBI_CNI_TYPE_8302]);
+#endif
+				printf("\n");
 			}
 		} else if (H_IS(0, "note")) {
 			printf("ok\n");
